@@ -176,7 +176,13 @@ pub fn shapes(cfg: &ShapeCfg) -> Vec<Shape> {
         for rp in &cfg.repeats {
           let mut abss: Vec<Vec<KeyCode>> = vec![vec![]];
           // every non-empty subset of the other trigger keys
-          if cfg.absorbing { for mask in 1..(1u32 << ms.len()) { abss.push(ms.iter().enumerate().filter(|(i, _)| mask & (1 << i) != 0).map(|(_, k)| *k).collect()); } }
+          // and, because the order of an absorbing list is visible to the implementation (keys are released in list order),
+          // both orders of every two-key subset
+          if cfg.absorbing { for mask in 1..(1u32 << ms.len()) {
+            let sub: Vec<KeyCode> = ms.iter().enumerate().filter(|(i, _)| mask & (1 << i) != 0).map(|(_, k)| *k).collect();
+            if sub.len() == 2 { abss.push(vec![sub[1], sub[0]]); }
+            abss.push(sub);
+          } }
           for ab in abss {
             let mut from = ms.clone();
             from.push(*f);
